@@ -2,7 +2,7 @@
 (***************************************************************************)
 (* C03 monitor.  trace == [id, ty, jin, jout, err, load, dump]             *)
 (*   ty   : type tree   [k, p, of : Seq(ty), fields : Seq([key, req, ty])] *)
-(*          k \in {"leaf","list","map","obj"}                              *)
+(*          k \in {"leaf","list","map","obj","deep"}                       *)
 (*   jin / jout : JSON as tagged trees [t, v, items, keys]                 *)
 (*          t \in {"s","n","b","z","l","o"}; for "o" keys[i] names items[i]*)
 (*   err  : "none" | "structure:<Type>" | "unstructure:<Type>"             *)
@@ -28,6 +28,7 @@ EmptyOK(ty, j) == j.t = "z" \/ (ty.k \in {"list", "map"} /\ j.t = (IF ty.k = "li
 RECURSIVE Diff(_, _, _)
 Diff(ty, a, b) ==
   IF ty.k = "leaf" THEN (IF a.t = b.t /\ a.v = b.v THEN "ok" ELSE "C03.value_changed")
+  ELSE IF ty.k = "deep" THEN (IF a = b THEN "ok" ELSE "C03.value_changed")     \* union-typed: whole tagged trees must be equal
   ELSE IF a.t # b.t THEN "C03.value_changed"
   ELSE IF ty.k = "list" THEN
      IF Len(a.items) # Len(b.items) THEN "C03.value_changed"
